@@ -78,8 +78,28 @@ def rule_a(ctx, ix):
             ctx.ob(R, f.construct, 'the subset removed from the group is also detached from its dataset', ok,
                    detail='%s removes the subset from the group only: the removed dataset keeps the grouped subset, and gets a '
                           'second one for the same group when it is appended again' % f.construct, where=where(f, c))
-    if n < 3:
-        raise AnalysisError('C06.a: only %d membership writes recognised in SubsetGroup' % n)
+    # the reverse direction: a grouped subset attached to a dataset must also be listed in the group
+    for name, m in sorted(sg.members.items()):
+        f = m.func
+        if f is None or name in PAIR_EXCEPTIONS:
+            continue
+        s = f.self_name
+        made = [st for st in walk_no_nested(f.node) if isinstance(st, ast.Assign) and isinstance(st.value, ast.Call)
+                and call_name(st.value) == 'GroupedSubset' and isinstance(st.targets[0], ast.Name)]
+        for st in made:
+            v = st.targets[0].id
+            attached = any(call_name(x) == 'add_subset' and x.args and unparse(x.args[0]) == v for x in calls_in(f.node))
+            listed = any(call_name(x) in ('append', 'insert') and unparse(x.func.value) == '%s.subsets' % s and unparse(x.args[-1]) == v
+                         for x in calls_in(f.node))
+            if attached or listed:
+                n += 1
+                ctx.ob(R, f.construct + ' new member', 'a new grouped subset is both listed in the group and attached to its dataset',
+                       listed and (attached or any(isinstance(lp, ast.For) and 'zip' in unparse(lp.iter) for lp in walk_no_nested(f.node))),
+                       detail='%s creates a grouped subset that is %s: the group and the dataset disagree about membership'
+                              % (f.construct, 'attached to the dataset but never listed in the group' if not listed else
+                                 'listed in the group but never attached to a dataset'), where=where(f, st))
+    if n < 1:
+        raise AnalysisError('C06.a: no membership writes recognised in SubsetGroup')
     # the dataset side: Subset.delete detaches from data._subsets
     sub = ix.cls('glue.core.subset.Subset')
     f = sub.resolve_func('delete')
